@@ -104,9 +104,12 @@ where
         });
     }
 
-    let variable_fee = action
+    let total_fee = action
         .variable_component()
-        .saturating_mul(fees.multiplier());
-    let total_fee = fees.base().saturating_add(variable_fee);
+        .checked_mul(fees.multiplier())
+        .and_then(|variable_fee| fees.base().checked_add(variable_fee))
+        .ok_or_else(|| CheckedActionFeeError::FeeOverflow {
+            action_name: action.name(),
+        })?;
     Ok(Some((fee_asset, total_fee)))
 }
